@@ -271,6 +271,11 @@ func (r *relay) processFrame(f http2.Frame) error {
 					r.peer.updateTableSize(s.Val)
 				case http2.SettingInitialWindowSize:
 					r.peer.updateInitialWindowSize(s.Val)
+					// The setting governs what the relay may send to this endpoint. It is not passed
+					// on: the other endpoint's windows towards the relay are the relay's own, which
+					// credits every octet back at once, while this endpoint's WINDOW_UPDATE frames
+					// stay with the relay - a window lowered here would never be opened again.
+					return nil
 				case http2.SettingMaxFrameSize:
 					r.peer.updateMaxFrameSize(s.Val)
 				}
